@@ -68,7 +68,7 @@ Section Report.
   Proof.
     induction ids as [|j r IH]; intros s Hf Hne; cbn [rem_list].
     - intros Hr. cbn [fst] in Hr. lia.
-    - destruct (String.eqb j skip); [apply IH; assumption|].
+    - destruct (skipped skip j); [apply IH; assumption|].
       pose proof (rr_rep s j Hf Hne) as H1. pose proof (rr_Sub s j now) as HS.
       destruct (rr s j now) as [s1 o]. cbn [fst snd] in *.
       destruct o as [b|e|w|].
@@ -255,16 +255,15 @@ Proof. destruct (st_Rem_Sub s id now) as (_ & _ & _ & _ & HF & HS). split; assum
 (** Linear kind, nothing expired, no failure: what is lost is in the closure. *)
 Lemma st_rem_lost_in_closure s id now :
   st_kind s = Linear -> st_fail s = None -> no_expired s now ->
-  ids_not_varlike s -> is_var id = false ->
   forall j, (alookup j (st_store s) <> None /\ alookup j (st_store (fst (st_rem s id now))) = None) \/
             (alookup j (st_facts s) <> None /\ alookup j (st_facts (fst (st_rem s id now))) = None) ->
             Clo s id j.
 Proof.
-  intros Hk Hf Hne Hnv Hx j Hlost.
+  intros Hk Hf Hne j Hlost.
   destruct (cascade_ok_linear s id now Hk Hf Hne) as (s' & had & Hr).
   assert (Hg : good s now) by (repeat split; auto).
   unfold st_rem in *. rewrite Hr in Hlost. cbn [fst] in Hlost.
-  destruct (rem_fuel_exact now _ s id s' had Hg Hx Hr) as (_ & D & _ & HDclo & _ & HR).
+  destruct (rem_fuel_exact now _ s id s' had Hg Hr) as (_ & D & _ & HDclo & _ & HR).
   destruct HR as (_ & _ & HF & HS).
   apply HDclo. apply mem_str_In.
   destruct (mem_str j D) eqn:Em; [reflexivity|exfalso].
